@@ -1154,6 +1154,13 @@ def c01_r10(ctx):
                 base = f.origins_of_place({"local": st["place"]["local"], "proj": pr[:pr.index(fields[-1])]})
                 path_o = {o + (("field", "path"),) for o in base}
                 ctx.inst("file state stored in %s" % f.id, f.where(b["i"], i))
+                # the place written must belong to the object that is kept (self / a parameter /
+                # a variable), not to a copy returned by a call that is dropped afterwards
+                lost = [o for o in f.storage_of_place({"local": st["place"]["local"], "proj": pr[:pr.index(fields[-1])]})
+                        if is_call(o) and not f.is_user(f.call_at[o[0][2]].dest["local"])]
+                if lost:
+                    ctx.viol((f.id, "state-stored-into-a-copy"), "the refreshed file state is written into a temporary copy (%s) and discarded: the table keeps the state of the file that was there before" % fmt_origin(lost[0]), f.where(b["i"], i))
+                    continue
                 vo = f._rv_origins(st["rv"], (), b["i"], i, frozenset())
                 ok = bool(vo)
                 why = ""
@@ -1215,3 +1222,36 @@ def c01_r10(ctx):
             ctx.viol((fid, "ticket-without-timestamp"), "the stored file state gets a new hash but keeps the modified time recorded for the previous file", f2.where(b2, i2))
         else:
             ctx.ok()
+
+
+@rule("C04.R7", floor=2)
+def c04_r7(ctx):
+    """What a command's process reported is what ruler judges: every production construction
+    of CommandLineOutput takes `code` from ExitStatus::code() and `success` from
+    ExitStatus::success() of the process output it was handed, unaltered (a defaulted code
+    would turn a command killed by a signal into exit code 0, i.e. success)."""
+    n = 0
+    for f in ctx.P.fns.values():
+        if f.body.get("in_test") or f.kind == "promoted" or f.body.get("derived") or f.body["span"]["file"].endswith("system/fake.rs"):
+            continue
+        for (bb, idx, rv, pl) in f.constructs("system::CommandLineOutput"):
+            names = rv["kind"]["fields"]
+            ctx.saw(f)
+            for fld, want in (("code", "std::process::ExitStatus::code"), ("success", "std::process::ExitStatus::success")):
+                n += 1
+                ctx.inst("CommandLineOutput.%s in %s" % (fld, f.id), f.where(bb, idx))
+                org = f.origins_of_operand(rv["ops"][names.index(fld)])
+                good = bool(org)
+                for o in org:
+                    if not (is_call(o, want) and len(o) == 1):
+                        good = False
+                        continue
+                    c = f.call_at[o[0][2]]
+                    ao = f.origins_of_operand(c.args[0])
+                    if not (ao and all(a[0][0] == "param" and a[-1] == ("field", "status") for a in ao)):
+                        good = False
+                if good:
+                    ctx.ok()
+                else:
+                    ctx.viol((f.id, "exit-status-altered", fld), "CommandLineOutput.%s is not the process's own `status.%s()` (derives from %s): how a command ended would be misjudged, e.g. a command killed by a signal counted as exit code 0" % (fld, want.split("::")[-1], sorted(map(fmt_origin, org))[:3]), f.where(bb, idx))
+    ctx.need(n, "a production construction of system::CommandLineOutput")
